@@ -235,13 +235,19 @@ def strip_ledger(s):
 def norm_c(line):
     if line.startswith("CRASH"): return "CRASH"
     return line.rstrip()
+TAG = re.compile(r" @([\w-]+)$")
 def split_model(line):
-    """model line -> (model observation, ideal observation or None)"""
+    """model line -> (model observation, ideal observation or None). A trailing ' @tag' on the model part
+    (a branch label of the model, e.g. the known-defective cc_deque_add_at branches) is not compared."""
     if line.startswith("CRASH"): return "CRASH", None
     if " ## " in line:
         a, b = line.split(" ## ", 1)
-        return a.rstrip(), b.rstrip()
-    return line.rstrip(), None
+        return TAG.sub("", a.rstrip()), b.rstrip()
+    return TAG.sub("", line.rstrip()), None
+def model_tag(line):
+    a = line.split(" ## ", 1)[0].rstrip()
+    m = TAG.search(a)
+    return m.group(1) if m else None
 
 def compare(trace, c_lines, m_lines):
     """Returns dict: first C-vs-model mismatch and first C-vs-ideal mismatch (line index, texts)."""
@@ -257,7 +263,7 @@ def compare(trace, c_lines, m_lines):
         if res["corr"] is None and cn != m:
             res["corr"] = {"line": i, "c": c, "model": mraw}
         if res["ideal"] is None and ideal is not None and not ideal.startswith("~") and strip_ledger(cn) != strip_ledger(ideal):
-            res["ideal"] = {"line": i, "c": c, "ideal": ideal}
+            res["ideal"] = {"line": i, "c": c, "ideal": ideal, "tag": model_tag(mraw)}
         if cn == "CRASH" or m == "CRASH":
             break
     return res
